@@ -1,4 +1,4 @@
-import MlModel.Lemmas.TreeApi
+import MlModel.Lemmas.TreeApply
 /-!
 # C18 — tree views obey get/set laws and never mutate the viewed data
 
@@ -275,6 +275,87 @@ theorem C18_items_terminates {h : Heap} {root : Ref} {n : Node} (w : WF h root) 
       exact collectE_total (fun kc hkc => hF kc hkc)
     exact ⟨F + 1, ps, fun fuel' hle => dfs_mono_le h hle hps⟩
 
+/-! ## sequences of sets: multi-key `copy_and_set` and `copy_and_update` -/
+
+/-- **`copy_and_update`: every updated path reads its new value** when the paths pairwise leave each
+other (each later path w.r.t. each earlier one), on a heap without dangling references. -/
+theorem C18_update_get (strict : Bool) {h : Heap} {t : Ref} {other : List (Path × Ref)} {h' : Heap} {t' : Ref}
+    (hc : Closed h) (ht : t < h.size) (hv : ∀ kv ∈ other, kv.2 < h.size) (hp : ∀ kv ∈ other, PlainSelf kv.1)
+    (hpw : other.Pairwise (fun a b => Diverge b.1 a.1))
+    (hs : copyAndUpdate strict h t other = (h', .ok t')) : ∀ kv ∈ other, get h' t' kv.1 = .ok kv.2 := by
+  cases other with
+  | nil => intro kv hkv; cases hkv
+  | cons kv0 kvs => exact setMany_get strict _ h t h' t' hc ht hv hp hpw hs
+
+/-- **`copy_and_update`: every path that leaves all updated paths reads as before.** -/
+theorem C18_update_frame (strict : Bool) {h : Heap} {t : Ref} {other : List (Path × Ref)} {h' : Heap} {t' : Ref}
+    (hc : Closed h) (ht : t < h.size) (hv : ∀ kv ∈ other, kv.2 < h.size) {q : Path}
+    (hd : ∀ kv ∈ other, Diverge kv.1 q) (hs : copyAndUpdate strict h t other = (h', .ok t')) (x : Ref) :
+    get h' t' q = .ok x ↔ get h t q = .ok x := by
+  cases other with
+  | nil => simp [copyAndUpdate] at hs; obtain ⟨rfl, rfl⟩ := hs; exact Iff.rfl
+  | cons kv0 kvs => exact setMany_frame strict _ h t h' t' q hc ht hv hd hs x
+
+/-- **Multi-key `copy_and_set`** with aligned keys and values (`values` a tuple of the same length as
+`keys`, not the "one key, many values" case): every key reads its value. -/
+theorem C18_multiset_get (strict : Bool) {h : Heap} {t values : Ref} {ks : List Path} {h' : Heap} {t' : Ref}
+    (hc : Closed h) (ht : t < h.size) (hvals : ∀ v ∈ valuesOf h values, v < h.size)
+    (hal : ¬ (ks.length == 1 && (valuesOf h values).length > 1) = true) (hlen : ks.length = (valuesOf h values).length)
+    (hp : ∀ k ∈ ks, PlainSelf k) (hpw : ks.Pairwise (fun a b => Diverge b a))
+    (hs : copyAndSet strict h t (.multi ks) values = (h', .ok t')) :
+    ∀ kv ∈ ks.zip (valuesOf h values), get h' t' kv.1 = .ok kv.2 := by
+  simp only [copyAndSet, setItem] at hs
+  rw [if_neg hal] at hs
+  have : ¬ (ks.length != (valuesOf h values).length) = true := by simp [hlen]
+  rw [if_neg this] at hs
+  generalize hsm : setMany strict false h t (ks.zip (valuesOf h values)) = r at hs
+  obtain ⟨h1, e⟩ := r
+  cases e with
+  | error e => simp [finishSet] at hs
+  | ok d =>
+    simp [finishSet] at hs
+    obtain ⟨rfl, rfl⟩ := hs
+    refine setMany_get strict _ h t h1 d hc ht ?_ ?_ ?_ hsm
+    · intro kv hkv; exact hvals kv.2 (List.of_mem_zip hkv).2
+    · intro kv hkv; exact hp kv.1 (List.of_mem_zip hkv).1
+    · clear hsm hal hlen this hvals hp
+      generalize valuesOf h values = vals
+      induction ks generalizing vals with
+      | nil => simp
+      | cons k ks ih =>
+        cases vals with
+        | nil => simp
+        | cons v vals =>
+          rw [List.pairwise_cons] at hpw
+          simp only [List.zip_cons_cons, List.pairwise_cons]
+          refine ⟨?_, ih hpw.2 vals⟩
+          intro kv hkv
+          exact hpw.1 kv.1 (List.of_mem_zip hkv).1
+
+/-! ## C18_apply -/
+
+/-- `apply()` without a leaf function returns the data itself. -/
+theorem C18_apply_identity (strict : Bool) (h : Heap) (root : Ref) : applyFn strict none h root = (h, .ok root) := rfl
+
+/-- **`apply()` maps every leaf and only leaves, and preserves the shape**: for every finite container
+tree, every leaf function that only allocates (`FnOK`), the result is equal to the original *up to*
+replacing each leaf by an image of that leaf under the function: same node kind, same keys in the same
+order / same length at every non-leaf position, and at every leaf position (a non-container, or an empty
+container) an object the function returned for that very leaf. -/
+theorem C18_apply (strict : Bool) {f : LeafFn} (hf : FnOK f) {h : Heap} {root : Ref} {n : Node}
+    (hc : Closed h) (hg : GoodDicts h) (hnn : NonNegKeys h) (w : WF h root) (hn : h[root]? = some n)
+    (hch : n.children ≠ []) {h' : Heap} {t' : Ref} (ha : applyFn strict (some f) h root = (h', .ok t')) :
+    SEqL (fun new old => ImageOf f h new old) h' h t' root := by
+  obtain ⟨s, hread⟩ := applyFn_spec strict hf hc hg hnn w hn hch ha
+  exact s.strengthen hg (fun a b hab => hab.2) hread
+
+/-- ... and reading any leaf path of the original in the result returns an image of that leaf. -/
+theorem C18_apply_reads (strict : Bool) {f : LeafFn} (hf : FnOK f) {h : Heap} {root : Ref} {n : Node}
+    (hc : Closed h) (hg : GoodDicts h) (hnn : NonNegKeys h) (w : WF h root) (hn : h[root]? = some n)
+    (hch : n.children ≠ []) {h' : Heap} {t' : Ref} (ha : applyFn strict (some f) h root = (h', .ok t'))
+    {q : Path} {x : Ref} (wq : LeafWalk h root q x) : ∃ v, get h' t' q = .ok v ∧ ImageOf f h v x :=
+  (applyFn_spec strict hf hc hg hnn w hn hch ha).2 q x wq
+
 /-! ## non-vacuity: a concrete heap satisfies every hypothesis used above (tests, not theorems) -/
 
 section Examples
@@ -311,6 +392,10 @@ example : (Node.list [2, 0]).children ≠ [] := by simp [Node.children, seqChild
 /-- in place: cell 2 (the dict) and 3 (the root) are on the path `[0]['a']`, the tuple cell 5 is not -/
 example : pathCells h0 3 [.idx 0, .str "a"] = [3, 2] := rfl
 example : (setPath false true h0 3 [.idx 0, .str "a"] 4).1[2]? = some (.dict [(.str "a", 4), (.str "b", 1)]) := rfl
+/-- apply: `lambda x: [x]` on `[{'a': 1, 'b': 2}, 1]` succeeds; hypotheses of `C18_apply` hold -/
+example : NonNegKeys h0 := nonNegKeysB_sound (by decide)
+example : FnOK wrapFn := wrapFn_ok
+example : (applyFn false (some wrapFn) h0 3).2 = .ok 14 := rfl
 /-- multi-key read -/
 example : getItem h0 3 (.multi [[.idx 1], [.idx 0, .str "b"]]) = .ok (.many [0, 1]) := rfl
 
